@@ -280,7 +280,9 @@ def run(ctx):
         G = next(b for b in prog.lib_bodies() if b.path == gp)
         fam |= {gp} | {h.path for h in prog.private_callees(G)}
     before = len(ctx.obs)
+    own_floors = dict(ctx.floors)
     c15.run(ctx)
+    ctx.floors = own_floors        # the included module's floors are reported under its own property
     keep = []
     for o in ctx.obs[before:]:
         if o["rule"] == "R1" or (o["rule"] == "R2" and (o["instance"] == "inventory" or any(x in o["instance"] for x in fam))):
